@@ -392,7 +392,7 @@ HARNESSES = [
     Harness('attenuation', h_attenuation, _mods, encodes=_enc, twins=('growing',),
             cases={'quick': [{'bx': 3.0}, {'bx': 3.0, 'kmax': 1, 'sol': 1, 'dz': 4}],
                    'thorough': [{'bx': 3.0}, {'bx': 40.0, 'dz': 1}, {'bx': 3.0, 'kmax': 1, 'sol': 1, 'dz': 4},
-                                {'bx': 3.0, 'kmax': 1, 'sol': 2, 'dz': 4}]},
+                                {'bx': 3.0, 'kmax': 1, 'sol': 1, 'dz': 2}]},
             budget={'quick': {'wall_s': 300, 'query_timeout_ms': 15000, 'light_decide': True}}),
 ]
 
